@@ -31,16 +31,16 @@ import (
 
 type bubbleJob struct {
 	f    func()
-	done chan bubbleResult
+	done chan string
 }
 
-type bubbleResult struct {
-	inner any // panic inside f (recovered in the bubble's root goroutine)
-	outer any // panic of synctest itself (deadlock: blocked goroutines remain)
-}
-
-// wall-clock limit for one bubble (they normally take milliseconds)
+// wall-clock limit for one job (they normally take milliseconds)
 const bubbleWatchdog = 180 * time.Second
+
+// jobs that share one bubble: fasthttp's pooled timers must not travel from one bubble to the next, which costs two
+// GC cycles (sync.Pool flush) per bubble; sharing a bubble between consecutive cases amortises that. A case that
+// leaves goroutines behind ends its bubble.
+const bubbleBatch = 150
 
 var (
 	bubbleOnce sync.Once
@@ -50,43 +50,111 @@ var (
 func startBubbleService() {
 	go testing.Main(func(pat, str string) (bool, error) { return true, nil },
 		[]testing.InternalTest{{Name: "bubbles", F: func(t *testing.T) {
-			for j := range bubbleJobs {
-				var res bubbleResult
+			for first := range bubbleJobs {
 				func() {
-					defer func() { res.outer = recover() }()
+					defer func() { recover() }() // "blocked goroutines remain" of a poisoned bubble: already reported per job
 					synctest.Test(t, func(*testing.T) {
-						defer func() { res.inner = recover() }()
-						j.f()
+						j := first
+						base, _ := bubbleGoroutines() // the bubble's own goroutines (root, synctest plumbing)
+						for n := 0; ; n++ {
+							poisoned := runBubbleJob(j, base)
+							if poisoned || n+1 >= bubbleBatch {
+								return
+							}
+							j = <-bubbleJobs // a channel from outside the bubble: waiting here does not let virtual time run
+						}
 					})
 				}()
-				j.done <- res
+				// sync.Pool contents (fasthttp's timer pool) must not travel from one bubble to the next
+				runtime.GC()
+				runtime.GC()
 			}
 		}}}, nil, nil)
 }
 
-// inBubble runs f in a fresh bubble and returns a description of a panic / deadlock ("" if none).
+// runBubbleJob runs one job on the bubble's root goroutine; reports whether the bubble must not be reused.
+func runBubbleJob(j *bubbleJob, base int) (poisoned bool) {
+	synctest.Wait()
+	g0 := runtime.NumGoroutine()
+	msg := ""
+	func() {
+		defer func() {
+			if e := recover(); e != nil {
+				msg = fmt.Sprintf("panic: %v", e)
+			}
+		}()
+		j.f()
+	}()
+	synctest.Wait()
+	// goroutines left behind: NumGoroutine is only a cheap hint (the runtime's finalizer goroutine comes and goes),
+	// the goroutine dump decides
+	if runtime.NumGoroutine() > g0 {
+		if n, where := bubbleGoroutines(); n > base {
+			poisoned = true
+			if msg == "" {
+				msg = fmt.Sprintf("deadlock: %d goroutines of this case are still blocked after its teardown: %s", n-base, where)
+			}
+		}
+	}
+	if msg != "" {
+		poisoned = true
+	}
+	j.done <- msg
+	return poisoned
+}
+
+// bubbleGoroutines counts the goroutines that belong to a synctest bubble (there is one bubble at a time).
+func bubbleGoroutines() (int, string) {
+	buf := make([]byte, 1<<20)
+	for {
+		n := runtime.Stack(buf, true)
+		if n < len(buf) {
+			buf = buf[:n]
+			break
+		}
+		buf = make([]byte, 2*len(buf))
+	}
+	cnt := 0
+	var where []string
+	for _, g := range bytes.Split(buf, []byte("\n\n")) {
+		lines := bytes.Split(g, []byte("\n"))
+		if len(lines) == 0 || !bytes.HasPrefix(lines[0], []byte("goroutine ")) || !bytes.Contains(lines[0], []byte("synctest bubble")) {
+			continue
+		}
+		cnt++
+		// state and the innermost non-runtime frame
+		state := string(lines[0])
+		if i := strings.IndexByte(state, '['); i >= 0 {
+			state = state[i:]
+		}
+		frame := ""
+		for _, l := range lines[1:] {
+			if len(l) > 0 && l[0] != '\t' && !bytes.HasPrefix(l, []byte("runtime.")) && !bytes.HasPrefix(l, []byte("sync.")) && !bytes.HasPrefix(l, []byte("time.")) && !bytes.HasPrefix(l, []byte("internal/")) {
+				frame = string(l)
+				break
+			}
+		}
+		if !bytes.Contains(g, []byte("main.runBubbleJob")) && !bytes.Contains(g, []byte("synctest.Run(")) && !bytes.Contains(g, []byte("synctest.testingSynctestTest(")) {
+			where = append(where, state+" "+frame)
+		}
+	}
+	return cnt, strings.Join(where, "; ")
+}
+
+// inBubble runs f inside a synctest bubble and returns a description of a panic / of goroutines left behind ("" if none).
 func inBubble(f func()) string {
 	bubbleOnce.Do(startBubbleService)
-	j := &bubbleJob{f: f, done: make(chan bubbleResult, 1)}
+	j := &bubbleJob{f: f, done: make(chan string, 1)}
 	bubbleJobs <- j
-	var res bubbleResult
 	select {
-	case res = <-j.done:
+	case msg := <-j.done:
+		return msg
 	case <-time.After(bubbleWatchdog):
 		// a goroutine of the bubble spins (virtual time never settles): nothing can be salvaged in-process
-		fmt.Fprintf(os.Stderr, "fhharness: bubble did not finish within %v of wall-clock time (a goroutine never blocks); goroutine dump follows\n", bubbleWatchdog)
+		fmt.Fprintf(os.Stderr, "fhharness: a case did not finish within %v of wall-clock time (a goroutine never blocks); goroutine dump follows\n", bubbleWatchdog)
 		buf := make([]byte, 1<<20)
 		os.Stderr.Write(buf[:runtime.Stack(buf, true)])
 		os.Exit(3)
-	}
-	// sync.Pool contents (fasthttp's timer pool) must not travel from one bubble to the next
-	runtime.GC()
-	runtime.GC()
-	if res.inner != nil {
-		return fmt.Sprintf("panic: %v", res.inner)
-	}
-	if res.outer != nil {
-		return fmt.Sprintf("%v", res.outer)
 	}
 	return ""
 }
@@ -124,7 +192,8 @@ type memConn struct {
 	rdDeadline, wrDeadline time.Time
 	rdTimer                *time.Timer
 
-	readLimit int // max bytes per client Read (0 = a whole segment)
+	readLimit   int // max bytes per client Read (0 = a whole segment)
+	readWaiters int // client Reads currently blocked
 
 	srvBytes, cliRead int // bytes written by the server / handed to the client
 	cliWrites         int
@@ -172,8 +241,20 @@ func (c *memConn) Read(p []byte) (int, error) {
 		if !c.rdDeadline.IsZero() && !time.Now().Before(c.rdDeadline) {
 			return 0, memTimeoutErr{}
 		}
+		c.readWaiters++
 		c.cond.Wait()
+		c.readWaiters--
 	}
+}
+
+// pendingReadDeadline returns the read deadline a client Read is currently blocked on (ok = false if none).
+func (c *memConn) pendingReadDeadline() (time.Time, bool) {
+	c.mu.Lock()
+	defer c.mu.Unlock()
+	if c.readWaiters == 0 || c.rdDeadline.IsZero() || c.cliClosed {
+		return time.Time{}, false
+	}
+	return c.rdDeadline, true
 }
 
 func (c *memConn) Write(p []byte) (int, error) {
